@@ -72,6 +72,7 @@ type stream struct {
 	streamEndNotSupportedData    *streamEndNotSupportedData
 	tracerComponent              *tracing.TracerComponent
 	rebalanceLock                sync.Mutex
+	lifecycleLock                sync.Mutex // serializes Close with the close and reopen halves of a rebalance
 	activeStreams                atomic.Int32
 	streamFinishedWithCloseCh    bool
 	streamFinishedWithEndEventCh bool
@@ -79,6 +80,7 @@ type stream struct {
 	balancing                    bool
 	closeWithCancel              bool
 	open                         bool
+	shutdown                     bool // Close was called: nothing is opened any more
 }
 
 type streamEndNotSupportedData struct {
@@ -286,6 +288,10 @@ func (s *stream) IsOpen() bool {
 }
 
 func (s *stream) Rebalance() {
+	if s.shutdown {
+		return
+	}
+
 	if s.balancing && s.rebalanceTimer == nil {
 		// the stream is being closed for a rebalance that is already under way: the reopen that
 		// follows reads the latest membership, a second close/reopen cycle would add nothing
@@ -311,7 +317,12 @@ func (s *stream) Rebalance() {
 
 	if !s.balancing {
 		s.balancing = true
-		s.Close(false)
+
+		s.lifecycleLock.Lock()
+		if !s.shutdown {
+			s.close(false)
+		}
+		s.lifecycleLock.Unlock()
 	}
 
 	s.eventHandler.AfterRebalanceStart()
@@ -329,6 +340,14 @@ func (s *stream) rebalance() {
 	logger.Log.Info("reassigning vbuckets and opening stream is starting")
 
 	defer s.rebalanceLock.Unlock()
+
+	s.lifecycleLock.Lock()
+	defer s.lifecycleLock.Unlock()
+
+	if s.shutdown {
+		// the client was closed while the stream was waiting to be reopened
+		return
+	}
 
 	s.eventHandler.BeforeRebalanceEnd()
 	s.Open()
@@ -429,7 +448,26 @@ func (s *stream) wait() {
 	}
 }
 
+// Close shuts the stream down for good. A rebalance may be under way: its close or reopen half is waited
+// for, a reopen that has not started is cancelled, and a stream it has already closed is left alone.
 func (s *stream) Close(closeWithCancel bool) {
+	s.lifecycleLock.Lock()
+	defer s.lifecycleLock.Unlock()
+
+	s.shutdown = true
+
+	if s.rebalanceTimer != nil {
+		s.rebalanceTimer.Stop()
+	}
+
+	if s.observers == nil {
+		return
+	}
+
+	s.close(closeWithCancel)
+}
+
+func (s *stream) close(closeWithCancel bool) {
 	s.closeWithCancel = closeWithCancel
 
 	s.eventHandler.BeforeStreamStop()
